@@ -64,10 +64,50 @@ func c15QuicQuery(server string, clientIP string, id uint16) (string, error) {
 	return "rcode" + rcodeName(m.RCode()), nil
 }
 
+// c15QuicMany: one connection from clientIP, n queries on n streams, one after the other; returns how many were answered and
+// the time the whole thing took (an upper bound of the window in which the admitted cost was charged).
+func c15QuicMany(server string, clientIP string, n int) (answered int, took time.Duration, err error) {
+	uc, err := net.ListenUDP("udp4", &net.UDPAddr{IP: net.ParseIP(clientIP)})
+	if err != nil {
+		return 0, 0, err
+	}
+	defer uc.Close()
+	tr := &quic.Transport{Conn: uc}
+	defer tr.Close()
+	ctx, cancel := context.WithTimeout(context.Background(), 20*time.Second)
+	defer cancel()
+	t0 := time.Now()
+	sa, _ := net.ResolveUDPAddr("udp4", server)
+	conn, err := tr.Dial(ctx, sa, &tls.Config{InsecureSkipVerify: true, NextProtos: []string{"doq"}}, &quic.Config{})
+	if err != nil {
+		return 0, time.Since(t0), nil
+	}
+	defer conn.CloseWithError(0, "")
+	for i := 0; i < n; i++ {
+		st, err := conn.OpenStreamSync(ctx)
+		if err != nil {
+			break
+		}
+		st.SetDeadline(time.Now().Add(5 * time.Second))
+		q := refdns.Query(0, refdns.N(fmt.Sprintf("many%d", i), "example", "test"), 1, 1)
+		if _, err := st.Write(refdns.Frame(q.Encode(false))); err != nil {
+			break
+		}
+		st.Close()
+		b, _ := io.ReadAll(st)
+		if fs, _ := env.SplitFrames(b); len(fs) == 1 {
+			if m, err := refdns.Decode(fs[0]); err == nil && m.RCode() == 0 {
+				answered++
+			}
+		}
+	}
+	return answered, time.Since(t0), nil
+}
+
 func TestVerifC15Quic(t *testing.T) {
 	rep := report.New("C15 DoQ admission (real quic-go)")
 	defer rep.Write()
-	rep.Rule = "real quic listener started by startQuicServer on 127.0.0.1 with client limiter rate 1/s burst 15 (= one QUIC connection); script: connection+query from 127.1.1.7 (must be served), then from 127.1.2.7 (other /24: a fresh subnet must be served whatever 127.1.1.7 did); distinct = distinct (client, outcome)"
+	rep.Rule = "real quic listener started by startQuicServer on 127.0.0.1 with client limiter rate 1/s burst 15 (= one QUIC connection); script: connection+query from 127.1.1.7 (must be served), then from 127.1.2.7 (other /24: a fresh subnet must be served whatever 127.1.1.7 did), then one connection from 127.1.3.7 with 12 queries in a row (connection cost + answered queries x query cost <= burst + rate x time taken); distinct = distinct (client, outcome)"
 	if sh, _ := report.Shard(); sh != 0 {
 		rep.Eval("idle-shard")
 		rep.Eval("idle-shard2")
@@ -103,6 +143,15 @@ func TestVerifC15Quic(t *testing.T) {
 	rep.Sample(map[string]any{"A(127.1.1.7)": a, "B(127.1.2.7)": b})
 	if a != "answer" {
 		rep.Violate("C15:quic:first-client-not-served", fmt.Sprintf("first DoQ client was not served: %s", a), nil)
+	}
+	// a third subnet: one connection, 12 queries in a row. What is admitted is charged to that subnet: 15 for the connection and
+	// costTCPQuery for every answered query.
+	if n, took, err := c15QuicMany(addr, "127.1.3.7", 12); err == nil {
+		rep.Eval(fmt.Sprintf("C:%d answered", n))
+		burst := float64(cfg.Limiter.Client.Burst)
+		if charged := float64(costQuicConn + n*costTCPQuery); n > 0 && charged > burst+took.Seconds()+1e-6 {
+			rep.Violate("C15:quic:bound-exceeded", fmt.Sprintf("one DoQ connection from 127.1.3.7 (cost %d) got %d of 12 queries answered (cost %d each) within %.2f s: %v charged to one subnet, bound burst %v + 1/s x window", costQuicConn, n, costTCPQuery, took.Seconds(), charged, burst), nil)
+		}
 	}
 	if b != "answer" {
 		rep.Violate("C15:quic:fresh-subnet-refused", fmt.Sprintf("a DoQ client from a fresh subnet (127.1.2.7) was refused after 127.1.1.7 used its own budget (outcome %s): the connection cost is not charged to the client's subnet", b), nil)
